@@ -276,5 +276,5 @@ def run_task(task, seed):
 def replay(doc):
     ch = Chooser(tuple(doc["choices"]))
     if doc["family"] == "breaker-events":
-        return run_multi(doc["cfg"], doc["entry"], ch, 3, [0, 2])
+        return run_multi(doc["cfg"], doc["entry"], ch, doc["extra"]["ncalls"], doc["extra"]["ticks"])
     return run_plain(doc["cfg"], doc["entry"], ch)
